@@ -203,7 +203,8 @@ pub fn main(ctx: &Ctx) -> ! {
         acc.outcomes.lock().unwrap().extend(local);
     });
     // 2. exhaustive content-attribute sweep
-    let lex = ["charset", "CHARSET", "chars", " ", "\t", "=", "&quot;", "'", ";", "x", "\u{e9}", "\x0C", "\n"];
+    // U+0130 and U+212A change their UTF-8 length under Unicode case mapping (2->3 and 3->1 bytes)
+    let lex = ["charset", "CHARSET", "chars", " ", "\t", "=", "&quot;", "'", ";", "x", "\u{e9}", "\x0C", "\n", "\u{130}", "\u{212a}"];
     let depth = ctx.tier.pick(5, 7);
     let n = lex.len();
     let total = (1..=depth).map(|d| n.pow(d as u32)).sum::<usize>();
@@ -247,7 +248,7 @@ pub fn main(ctx: &Ctx) -> ! {
             "indicators_observed": acc.indicators.load(Ordering::Relaxed),
             "mode_cases": cases.len(),
             "content_strings": total,
-            "rule": format!("9 meta variants after every insertion-mode witness and every tree lexeme (document, scripting on/off) and in 35 fragment contexts, under every chunking with <= {max_cuts} cuts; all content strings of <= {depth} lexemes over {{charset, CHARSET, chars, SP, TAB, FF, LF, =, \", ', ;, x, e-acute}}: sequence of EncodingIndicator labels == labels expected from the inserted HTML meta elements (R-meta), meta attached when feed returns, tree unchanged by the suspension. distinct_nontrivial = distinct expected label sequences."),
+            "rule": format!("9 meta variants after every insertion-mode witness and every tree lexeme (document, scripting on/off) and in 35 fragment contexts, under every chunking with <= {max_cuts} cuts; all content strings of <= {depth} lexemes over {{charset, CHARSET, chars, SP, TAB, FF, LF, =, \", ', ;, x, e-acute, U+0130, U+212A}}: sequence of EncodingIndicator labels == labels expected from the inserted HTML meta elements (R-meta), meta attached when feed returns, tree unchanged by the suspension. distinct_nontrivial = distinct expected label sequences."),
             "exhaustive": true,
             "samples": ["<table><meta charset=x>", "<frameset><meta charset=x>", "<meta http-equiv=content-type content=\"charset charset = &quot;x&quot;\">", "<svg><meta charset=x>"],
         }),
